@@ -73,8 +73,26 @@ func (c *allOfConstraintCompiler) extend(node ischema.Node, schemaNames []string
 		panic(errs.ErrTypeNameNotFoundInAllOfRule.F())
 	}
 
+	// Resolve every named type before anything is merged: the node may belong to
+	// a type that other schemas share, and a name that cannot be resolved must not
+	// leave it extended by the types listed before that name.
+	for _, name := range schemaNames {
+		c.resolve(node, name)
+	}
+
 	for _, name := range schemaNames {
 		c.extendWith(node, name)
+	}
+}
+
+func (c *allOfConstraintCompiler) resolve(node ischema.Node, name string) {
+	lex := node.BasisLexEventOfSchemaForNode()
+	defer lexeme.CatchLexEventErrorWithIncorrectUserType(
+		lex,
+		lex.File().Name(),
+	)
+	if _, ok := c.processType(name).RootNode().(*ischema.ObjectNode); !ok {
+		panic(errs.ErrUnacceptableUserTypeInAllOfRule.F(name))
 	}
 }
 
